@@ -8,9 +8,15 @@ final state of both time slots.  The oracle evaluates the property itself on the
 bookkeeping that does not use the model.
 """
 import contextlib
+import errno
 import io
 import json
 import logging
+import os
+import random as _random
+import sys
+import time as _time
+import warnings
 
 from common import impl_error
 
@@ -271,15 +277,17 @@ def sym_voice_nocc(rng):
     return [l.bits_to_bytes(bits).hex(), rng.choice(["Vocoder", "Undefined"])]
 
 
-def generated_transmission(rng, rate=None, confirmed=None, k=None, length=None, sap=None, cc=None):
+def generated_transmission(rng, rate=None, confirmed=None, k=None, length=None, sap=None, cc=None, payload=None):
     """a complete data transmission from the library's own generator"""
     l = L()
     rate = rate or rng.choice(["r12", "r34", "r1"])
     cls = {"r12": l.Rate12Data, "r34": l.Rate34Data, "r1": l.Rate1Data}[rate]
     confirmed = bool(rng.randrange(2)) if confirmed is None else confirmed
     k = rng.choice([0, 0, 1, 2, 3]) if k is None else k
-    length = rng.choice([0, 1, 5, 6, 7, 8, 9, 12, 20, 33, rng.randrange(70)]) if length is None else length
-    payload = bytes(rng.randrange(256) for _ in range(length)) if rng.random() < 0.7 else bytes(length)
+    if payload is None:
+        length = rng.choice([0, 1, 5, 6, 7, 8, 9, 12, 20, 33, rng.randrange(70)]) if length is None else length
+        payload = bytes(rng.randrange(256) for _ in range(length)) if rng.random() < 0.7 else bytes(length)
+    length = len(payload)
     cc = rng.randrange(16) if cc is None else cc
     _, poc = l.TransmissionGenerator.generate_data_bursts(cls, payload, cc, confirmed)
     per, last = {("r12", True): (10, 6), ("r12", False): (12, 8), ("r34", True): (16, 12), ("r34", False): (18, 14),
@@ -390,8 +398,54 @@ def canon_block(b):
     return "X" + type(b).__name__
 
 
-def make_observer(raises):
+class ObserverAbort(BaseException):
+    """an observer exception that is not an `Exception` (like asyncio.CancelledError / GeneratorExit)"""
+
+
+class BadStr(Exception):
+    """an exception whose text cannot be produced (met when a logger formats the traceback)"""
+
+    def __str__(self):
+        raise RuntimeError("no text")
+
+    __repr__ = __str__
+
+
+def _unicode_error():
+    return UnicodeDecodeError("ascii", b"\xff", 0, 1, "ordinal not in range(128)")
+
+
+def _cancelled():
+    import asyncio
+
+    return asyncio.CancelledError()
+
+
+# what a raising observer raises from (started, data ended, voice ended); flavour 0 is the historical one.
+# The fan-out guards every callback with a bare `except:`: whatever is raised must be swallowed.
+FLAVOURS = [
+    (lambda: RuntimeError("observer raises"), lambda: KeyError("observer raises"), lambda: AssertionError("observer raises")),
+    (lambda: AssertionError("observer raises"), lambda: AssertionError(), lambda: AssertionError("x")),
+    (lambda: BrokenPipeError(errno.EPIPE, "Broken pipe"), lambda: OSError(errno.ENOSPC, "No space left on device"),
+     lambda: ValueError("I/O operation on closed file.")),
+    (lambda: StopIteration(), _unicode_error, lambda: RecursionError("maximum recursion depth exceeded")),
+    (lambda: ObserverAbort("observer raises"), lambda: GeneratorExit(), _cancelled),
+    (lambda: SystemExit(3), lambda: KeyboardInterrupt(), lambda: MemoryError()),
+    (lambda: BadStr(), lambda: BadStr(), lambda: BadStr()),
+]
+
+# called before every burst and inside every observer callback (ambient conditions that act between steps)
+_HOOK = [None]
+
+
+def _hook():
+    if _HOOK[0] is not None:
+        _HOOK[0]()
+
+
+def make_observer(raises, flavour=0):
     l = L()
+    exc = FLAVOURS[flavour % len(FLAVOURS)]
 
     class Rec(l.TransmissionObserverInterface):
         def __init__(self):
@@ -401,22 +455,25 @@ def make_observer(raises):
         def transmission_started(self, transmission_type):
             self.log.append("S:" + TXT[transmission_type.name])
             self.raw.append(("S", TXT[transmission_type.name], None, None))
+            _hook()
             if raises:
-                raise RuntimeError("observer raises")
+                raise exc[0]()
 
         def data_transmission_ended(self, transmission_header, blocks):
             bl = [canon_block(b) for b in blocks]
             self.log.append("DE:" + canon_hdr(transmission_header) + ":[" + (",".join(bl) if bl else "-") + "]")
             self.raw.append(("E", "D", transmission_header, list(blocks)))
+            _hook()
             if raises:
-                raise KeyError("observer raises")
+                raise exc[1]()
 
         def voice_transmission_ended(self, voice_header, blocks):
             bl = [canon_block(b) for b in blocks]
             self.log.append("VE:" + canon_hdr(voice_header) + ":[" + (",".join(bl) if bl else "-") + "]")
             self.raw.append(("E", "V", voice_header, list(blocks)))
+            _hook()
             if raises:
-                raise AssertionError("observer raises")
+                raise exc[2]()
 
     return Rec()
 
@@ -493,6 +550,190 @@ def quiet(counter):
         l.secrets.token_bytes = old
 
 
+# ------------------------------------------------------------------------------------------------
+# ambient interpreter / process state: "processing never fails" must not depend on it
+# ------------------------------------------------------------------------------------------------
+class FailingWriter:
+    """a text stream (sys.stdout / sys.stderr / a logging handler's stream) every use of which raises"""
+
+    encoding = "utf-8"
+    errors = "strict"
+    closed = False
+
+    def __init__(self, make_exc):
+        self.make_exc = make_exc
+        self.attempts = 0
+
+    def _fail(self, *a, **k):
+        self.attempts += 1
+        raise self.make_exc()
+
+    write = writelines = flush = fileno = _fail
+
+    def writable(self):
+        return True
+
+    def isatty(self):
+        return False
+
+    @property
+    def buffer(self):
+        return self
+
+
+STREAM_ERRORS = {
+    "enospc": lambda: OSError(errno.ENOSPC, "No space left on device"),
+    "epipe": lambda: BrokenPipeError(errno.EPIPE, "Broken pipe"),
+    "closed": lambda: ValueError("I/O operation on closed file."),
+    "ebadf": lambda: OSError(errno.EBADF, "Bad file descriptor"),
+    "eagain": lambda: BlockingIOError(errno.EAGAIN, "write could not complete without blocking", 0),
+    "readonly": lambda: io.UnsupportedOperation("not writable"),
+    "unicode": lambda: UnicodeEncodeError("ascii", "ř", 0, 1, "ordinal not in range(128)"),
+    "reentrant": lambda: RuntimeError("reentrant call inside <_io.BufferedWriter name='<stdout>'>"),
+}
+# Python's own logging only survives OSError from sys.stderr (Handler.handleError); see ctx.assumptions
+STDERR_ERRORS = ["enospc", "epipe", "ebadf", "eagain"]
+
+AMBIENTS = (
+    ["stdout:" + k for k in STREAM_ERRORS] + ["stdout:pipe", "stdout:closedfile", "stdout:none"]
+    + ["stderr:" + k for k in STDERR_ERRORS] + ["both:enospc", "both:epipe", "both:closed-noraise"]
+    + ["log:root-debug", "log:root-debug-failing", "log:class-debug", "log:root-debug-stdout-failing"]
+    + ["random:reseed", "random:setstate", "secrets:real"]
+    + ["clock:backwards", "clock:frozen", "clock:jump"]
+    + ["warnings:error"]
+)
+REAL_ENTROPY = ("random:reseed", "random:setstate", "secrets:real")
+CLASS_LOGGERS = ["Transmission", "Timeslot", "Terminal", "TransmissionWatcher", "WithObservers"]
+
+
+@contextlib.contextmanager
+def ambient_env(name, counter):
+    """run the body under one ambient condition; nothing reaches the harness' own stdout / stderr.
+    Everything that is changed is restored afterwards."""
+    l = L()
+    fam, _, var = name.partition(":")
+    from okdmr.dmrlib.transmission import timeslot as ts_mod
+
+    saved = {
+        "stdout": sys.stdout, "stderr": sys.stderr, "token": l.secrets.token_bytes, "disable": logging.root.manager.disable,
+        "root_level": logging.root.level, "root_handlers": list(logging.root.handlers), "raise": logging.raiseExceptions,
+        "random": _random.getstate(), "time": _time.time, "ts_time": ts_mod.time, "hook": _HOOK[0],
+        "loggers": {n: (logging.getLogger(n).level, list(logging.getLogger(n).handlers)) for n in CLASS_LOGGERS},
+    }
+    to_close = []
+    sink_out, sink_err = io.StringIO(), io.StringIO()
+    wctx = warnings.catch_warnings()
+    wctx.__enter__()
+    try:
+        sys.stdout, sys.stderr = sink_out, sink_err
+        logging.disable(logging.NOTSET)  # logging as an application has it by default: WARNING and above to the last-resort handler
+        if name not in REAL_ENTROPY:
+            l.secrets.token_bytes = counter
+        fmt = logging.Formatter("%(asctime)s %(name)s %(levelname)s %(message)s")
+        if fam in ("stdout", "both") and var in STREAM_ERRORS:
+            sys.stdout = FailingWriter(STREAM_ERRORS[var])
+        if fam in ("stderr", "both") and var in STREAM_ERRORS:
+            sys.stderr = FailingWriter(STREAM_ERRORS[var])
+            h = logging.StreamHandler()  # binds the failing sys.stderr
+            logging.root.handlers = [h]
+            logging.root.setLevel(logging.DEBUG)
+        if name == "both:closed-noraise":
+            # both standard streams closed, logging configured for production (errors of handlers are dropped)
+            sys.stdout = FailingWriter(STREAM_ERRORS["closed"])
+            sys.stderr = FailingWriter(STREAM_ERRORS["closed"])
+            logging.raiseExceptions = False
+            logging.root.handlers = [logging.StreamHandler()]
+            logging.root.setLevel(logging.DEBUG)
+        if name == "stdout:pipe":
+            # the reader of the pipe has gone: BrokenPipeError from the real descriptor (SIGPIPE is ignored by Python)
+            rfd, wfd = os.pipe()
+            os.close(rfd)
+            sys.stdout = os.fdopen(wfd, "w", buffering=1)
+            to_close.append(sys.stdout)
+        elif name == "stdout:closedfile":
+            f = io.StringIO()
+            f.close()
+            sys.stdout = f
+        elif name == "stdout:none":
+            sys.stdout = None  # pythonw / detached daemon
+        elif fam == "log":
+            logging.root.setLevel(logging.DEBUG)
+            if var == "root-debug":
+                h = logging.StreamHandler(io.StringIO())
+                h.setFormatter(fmt)
+                logging.root.handlers = [h]
+            elif var == "root-debug-failing":
+                h = logging.StreamHandler(FailingWriter(STREAM_ERRORS["enospc"]))
+                h.setFormatter(fmt)
+                logging.root.handlers = [h]
+            elif var == "root-debug-stdout-failing":
+                # the usual `basicConfig(stream=sys.stdout, level=DEBUG)` of the library's tools, on a dead stdout
+                sys.stdout = FailingWriter(STREAM_ERRORS["epipe"])
+                h = logging.StreamHandler(sys.stdout)
+                h.setFormatter(fmt)
+                logging.root.handlers = [h]
+            else:
+                logging.root.setLevel(saved["root_level"])
+                for n in CLASS_LOGGERS:
+                    lg = logging.getLogger(n)
+                    lg.setLevel(logging.DEBUG)
+                    h = logging.StreamHandler(io.StringIO())
+                    h.setFormatter(fmt)
+                    lg.handlers = [h]
+        elif name == "random:reseed":
+            _HOOK[0] = lambda: _random.seed(20260926)
+        elif name == "random:setstate":
+            st = _random.getstate()
+            _HOOK[0] = lambda: _random.setstate(st)
+        elif fam == "clock":
+            box = [2.0e9]
+
+            def clock():
+                if var == "backwards":
+                    box[0] -= 3600.0
+                elif var == "jump":
+                    box[0] += 86400.0 * 365
+                return box[0]
+
+            _time.time = clock
+            ts_mod.time = clock
+        elif name == "warnings:error":
+            warnings.simplefilter("error")
+        yield
+    finally:
+        wctx.__exit__(None, None, None)
+        _HOOK[0] = saved["hook"]
+        _time.time, ts_mod.time = saved["time"], saved["ts_time"]
+        _random.setstate(saved["random"])
+        for n, (lvl, hs) in saved["loggers"].items():
+            logging.getLogger(n).setLevel(lvl)
+            logging.getLogger(n).handlers = hs
+        logging.root.handlers = saved["root_handlers"]
+        logging.root.setLevel(saved["root_level"])
+        logging.raiseExceptions = saved["raise"]
+        logging.disable(saved["disable"])
+        l.secrets.token_bytes = saved["token"]
+        sys.stdout, sys.stderr = saved["stdout"], saved["stderr"]
+        for f in to_close:
+            try:
+                f.close()
+            except (OSError, ValueError):
+                pass
+
+
+@contextlib.contextmanager
+def inherit_env(counter):
+    """no redirection at all: the standard streams and the logging configuration the process has (used by
+    the child process whose descriptors 1 and 2 are really broken)"""
+    l = L()
+    old = l.secrets.token_bytes
+    l.secrets.token_bytes = counter
+    try:
+        yield
+    finally:
+        l.secrets.token_bytes = old
+
+
 def slot_state(ts):
     tx = ts.transmission
     return " ".join([
@@ -502,14 +743,182 @@ def slot_state(ts):
     ])
 
 
-def run_history(raises, history, watcher=False):
+# ------------------------------------------------------------------------------------------------
+# calls the tracker must reject (error paths).  A history element ["bad", kind, slot, hex, burst type] is such a
+# call; it is not a burst of the alphabet, the model is not told about it, and the valid bursts around it
+# must be answered exactly as without it.
+# ------------------------------------------------------------------------------------------------
+BAD_KINDS = [
+    "slot:0", "slot:3", "slot:-1", "slot:str", "slot:none", "slot:tuple",
+    "burst:none", "burst:bytes", "burst:object", "burst:int", "burst:str", "burst:dict", "burst:class",
+    "ts:none", "ts:bytes", "tx:none", "tx:int",
+    "obs:add-object", "obs:add-none", "obs:add-class", "obs:remove-absent", "obs:tx-add-none",
+    "terminal:id0", "terminal:id-big", "terminal:id-none", "terminal:id-str",
+    "watch:slot7", "watch:none",
+]
+# corrupted copies of a valid data / control burst: the colour code is read before the parse fails, so
+# they are only injected directly in front of the burst they were copied from (same slot)
+TWIN_KINDS = ["twin:none", "twin:trunc", "twin:empty", "twin:long", "twin:bytes"]
+# twins that fail the same way when asserts are stripped (python -O)
+TWIN_KINDS_NOASSERT = ["twin:none"]
+
+
+def do_bad_call(term, watch, kind, slot, hexbytes, btype):
+    """perform one rejected call; returns the canonical exception or 'returned'"""
+    l = L()
+    fam, _, var = kind.partition(":")
+    burst = l.Burst.from_bytes(bytes.fromhex(hexbytes), burst_type=l.BurstTypes[btype])
+    try:
+        if fam == "slot":
+            bad = {"0": 0, "3": 3, "-1": -1, "str": str(slot), "none": None, "tuple": (slot,)}[var]
+            term.process_incoming_burst(burst, bad)
+        elif fam == "burst":
+            x = {"none": None, "bytes": bytes.fromhex(hexbytes), "object": object(), "int": 0, "str": hexbytes, "dict": {},
+                 "class": l.Burst}[var]
+            term.process_incoming_burst(x, slot)
+        elif fam == "ts":
+            term.timeslots[slot].process_burst(None if var == "none" else bytes.fromhex(hexbytes))
+        elif fam == "tx":
+            term.timeslots[slot].transmission.process_packet(None if var == "none" else 7)
+        elif fam == "obs":
+            if var == "add-object":
+                term.add_observer(object())
+            elif var == "add-none":
+                term.add_observer(None)
+            elif var == "add-class":
+                term.add_observer(l.TransmissionObserverInterface)
+            elif var == "tx-add-none":
+                term.timeslots[slot].transmission.add_observer(None)
+            else:
+                term.remove_observer(make_observer(False))
+        elif fam == "terminal":
+            l.Terminal({"id0": 0, "id-big": 1 << 24, "id-none": None, "id-str": "1"}[var], [])
+        elif fam == "watch":
+            target = watch if watch is not None else term
+            if var == "slot7":
+                if watch is not None:
+                    burst.target_radio_id = 1
+                    burst.timeslot = 7
+                    watch.process_burst(burst)
+                else:
+                    term.process_incoming_burst(burst, 7)
+            else:
+                if watch is not None:
+                    watch.process_burst(None)
+                else:
+                    target.process_incoming_burst(None, slot)
+        elif fam == "twin":
+            if var == "none":
+                burst.full_bits = None
+            elif var == "trunc":
+                burst.full_bits = burst.full_bits[:200]
+            elif var == "empty":
+                burst.full_bits = burst.full_bits[:0]
+            elif var == "long":
+                burst.full_bits = burst.full_bits + burst.full_bits
+            else:
+                burst.full_bits = burst.full_bits.tobytes()
+            if watch is not None:
+                burst.target_radio_id = 1
+                burst.timeslot = slot
+                watch.process_burst(burst)
+            else:
+                term.process_incoming_burst(burst, slot)
+        else:
+            raise KeyError(kind)
+    except BaseException as e:  # noqa
+        return impl_error(e)
+    return "returned"
+
+
+def mask_twin(state):
+    """a corrupted twin legitimately leaves its colour code (and, inside a voice call, the label Unknown, which the
+    burst it was copied from leaves as well): everything else must be untouched"""
+    out = []
+    for part in state.split(" / "):
+        f = part.split(" ")
+        f[3] = f[8] = "*"
+        out.append(" ".join(f))
+    return " / ".join(out)
+
+
+def inject_bad_calls(rng, history, first=True, density=0.25, noassert=False):
+    """interleave rejected calls into a history (always one before the first burst when `first`)"""
+    out = []
+    ref = None
+    for el in history:
+        if el[0] != "bad":
+            ref = el
+            break
+    if ref is None:
+        return list(history)
+    twins = TWIN_KINDS_NOASSERT if noassert else TWIN_KINDS
+    # without asserts Terminal(0) is created (and draws two stream ids from the counter that stands in for the entropy source)
+    kinds = [k for k in BAD_KINDS if not (noassert and k.startswith("terminal:"))]
+    for i, el in enumerate(history):
+        if el[0] == "bad":
+            out.append(el)
+            continue
+        n = 0
+        if i == 0 and first:
+            n = rng.randrange(1, 4)
+        elif rng.random() < density:
+            n = rng.randrange(1, 3)
+        for _ in range(n):
+            out.append(["bad", rng.choice(kinds), el[0] if rng.random() < 0.7 else 3 - el[0], el[1], el[2]])
+        if el[2] == "DataAndControl" and rng.random() < density:
+            try:
+                _, view = alpha(el[1], el[2])
+            except BaseException:  # noqa
+                view = {"kind": None}
+            if view["kind"] in ("vh", "tm", "dh", "cs", "rate", "ot"):
+                out.append(["bad", rng.choice(twins), el[0], el[1], el[2]])
+        out.append(el)
+        ref = el
+    if rng.random() < 0.5:
+        out.append(["bad", rng.choice(kinds), ref[0], ref[1], ref[2]])
+    return out
+
+
+def run_history(raises, history, watcher=False, ambient=None, flavour=0, info=None):
     """feed one history to a real Terminal (directly, or through a TransmissionWatcher that ends with
     end_all_transmissions).  Returns (lines for the model, impl outputs, oracle failures)."""
     l = L()
     counter = Counter()
     lines, outs, fails = [], [], []
-    with quiet(counter):
-        observers = [make_observer(r) for r in raises]
+    info = {} if info is None else info
+    # under these conditions what the UDP/IP diagnostic of end_data_transmission did can be observed from outside
+    # (standard output a recording sink or a failing writer that counts, warnings on the standard error sink)
+    fam, _, var = (ambient or "").partition(":")
+    if fam == "stdout" and var in STREAM_ERRORS:
+        info["observe_diag"] = 1
+    elif ambient in ("clock:frozen", "clock:jump", "warnings:error"):
+        info["observe_diag"] = 0
+    env = quiet(counter) if ambient is None else inherit_env(counter) if ambient == "inherit" else ambient_env(ambient, counter)
+    with env:
+        streams = (sys.stdout, sys.stderr)
+        try:
+            return _run_history(raises, history, watcher, flavour, info, counter, lines, outs, fails)
+        finally:
+            # how often the code under test wrote (or tried to write) to the standard streams
+            info["write_attempts"] = sum(getattr(x, "attempts", 0) for x in streams)
+            if isinstance(streams[0], io.StringIO) and not streams[0].closed:
+                info["printed"] = streams[0].getvalue().count("[IPv4 id:")
+
+
+def diag_marks():
+    """(writes attempted on a failing stdout, datagrams printed on a recording stdout, decode warnings on stderr)"""
+    out, err = sys.stdout, sys.stderr
+    return (getattr(out, "attempts", 0),
+            out.getvalue().count("[IPv4 id:") if isinstance(out, io.StringIO) and not out.closed else 0,
+            err.getvalue().count("cannot decode UDP/IPv4 compressed header") if isinstance(err, io.StringIO) and not err.closed else 0)
+
+
+def _run_history(raises, history, watcher, flavour, info, counter, lines, outs, fails):
+    l = L()
+    dead = info.get("observe_diag")
+    if True:
+        observers = [make_observer(r, flavour) for r in raises]
         if watcher:
             from okdmr.dmrlib.transmission.transmission_watcher import TransmissionWatcher
 
@@ -525,13 +934,36 @@ def run_history(raises, history, watcher=False):
         seen_streams = {int.from_bytes(term.timeslots[s].transmission.stream_no, "big") for s in (1, 2)}
         if len(seen_streams) != 2:
             fails.append(("stream-id-not-fresh", "the two time slots start with the same stream id", None, None))
-        for step, (slot, hexbytes, btype) in enumerate(history):
+        for step, el in enumerate(history):
+            _hook()
+            if el[0] == "bad":
+                _, kind, slot, hexbytes, btype = el
+                before = [len(o.log) for o in observers]
+                st0 = slot_state(term.timeslots[1]) + " / " + slot_state(term.timeslots[2])
+                res = do_bad_call(term, watch, kind, slot, hexbytes, btype)
+                info.setdefault("bad", []).append([kind, res, len(lines) == 1])
+                st1 = slot_state(term.timeslots[1]) + " / " + slot_state(term.timeslots[2])
+                if kind.startswith("twin:"):
+                    if res == "returned":
+                        # the corrupted burst was processed (e.g. a length assert stripped by -O): what follows is
+                        # no longer a history over the alphabet; the run stops here and is not compared
+                        fails.append(("TAINT", kind, None, None))
+                        return lines, outs, fails
+                    st0, st1 = mask_twin(st0), mask_twin(st1)
+                if st0 != st1:
+                    fails.append(("error-path-state", f"the rejected call {kind} (answer: {res}) at step {step} changed the state of the tracker", st0, st1))
+                if [len(o.log) for o in observers] != before:
+                    fails.append(("error-path-state", f"the rejected call {kind} (answer: {res}) at step {step} delivered notifications",
+                                  [], [o.log[n:] for o, n in zip(observers, before)][:1]))
+                continue
+            slot, hexbytes, btype = el
             try:
                 tok, view = alpha(hexbytes, btype)
             except BaseException:  # noqa: not a parseable burst: outside the property's domain, not fed
                 continue
             burst = l.Burst.from_bytes(bytes.fromhex(hexbytes), burst_type=l.BurstTypes[btype])
             before = [len(o.log) for o in observers]
+            marks = diag_marks() if dead is not None else None
             try:
                 if watch is not None:
                     burst.target_radio_id = 1
@@ -558,8 +990,28 @@ def run_history(raises, history, watcher=False):
                 if news[j] != news[0]:
                     fails.append(("observer-isolation", f"observer {j} received different events than observer 0 at step {step}", news[0], news[j]))
             evs = raw_news[0] if observers else []
-            fails += shadow[slot].step(step, view, evs, out, ts, stream, seen_streams)
+            if observers:
+                fails += shadow[slot].step(step, view, evs, out, ts, stream, seen_streams)
+            # (without any observer the notifications are not visible from outside: model correspondence only)
             seen_streams.add(stream)
+            ends = [e for e in evs if e[0] == "E" and e[1] == "D"]
+            if marks is not None and len(ends) == 1:
+                # model vs code: what the diagnostic did with this transmission (decoded / undecodable / skipped)
+                m2 = diag_marks()
+                tried, printed, warned = (m2[0] - marks[0], m2[1] - marks[1], m2[2] - marks[2])
+                ud = b"".join(b.data for b in ends[0][3] if isinstance(b, (l.Rate12Data, l.Rate34Data, l.Rate1Data)))
+                sap = getattr(getattr(ends[0][2], "sap_identifier", None), "value", "-")
+                if printed and not tried and not warned:
+                    got = "printed"
+                elif tried and warned and not printed:
+                    got = "print-failed"
+                elif warned and not tried and not printed:
+                    got = "undecodable"
+                elif not (tried or printed or warned):
+                    got = "skipped"
+                else:
+                    got = f"tried={tried} printed={printed} warned={warned}"
+                info.setdefault("diag_pairs", []).append([f"t.diag {sap} {dead} {ud.hex() or '-'}", got])
         if watch is not None:
             # end_all_transmissions: every open transmission with a header is ended, by its own kind
             before = [len(o.log) for o in observers]
@@ -798,25 +1250,144 @@ def long_voice(rng, n):
     return h
 
 
-# ------------------------------------------------------------------------------------------------
-def job_run(job):
-    """one job in a worker process: build the history (if it is a seeded one) and run it on the real code"""
-    import random
+def many_transmissions(rng, n):
+    """n complete short transmissions in a row (two or three bursts each, voice and data mixed, both slots): many
+    notifications per observer, e.g. a fan-out that gives up on an observer after its k-th exception"""
+    l = L()
+    vh, tm = sym_voice_header(rng, kind="group"), sym_terminator(rng)
+    dh = sym_data_header(rng, fmt="unconfirmed", btf=1, a=0, sap=3)
+    blk = sym_rate(rng, rate="r12", info=l.bytes_to_bits(bytes.fromhex("123400010141424344454647")))
+    vs = sym_voice_sync(rng)
+    h = []
+    for i in range(n):
+        slot = 1 + (i // 3) % 2
+        if i % 2:
+            h += [[slot] + dh, [slot] + blk]
+        else:
+            h += [[slot] + vh, [slot] + vs, [slot] + tm]
+    return h
 
+
+# ------------------------------------------------------------------------------------------------
+# histories for the ambient sample: every way a transmission with SAP = UDP/IP header compression can end
+# ------------------------------------------------------------------------------------------------
+def udp_datagrams(rng):
+    """user data of a UDP/IPv4-compressed datagram: 16 bit id, SAID/DAID, SPID, DPID, [extended headers], data"""
+    ident = bytes([rng.randrange(256), rng.randrange(256), rng.randrange(256)])
+    port = lambda: bytes([rng.randrange(1, 128)])  # noqa: E731
+    data = lambda n: bytes(rng.randrange(256) for _ in range(n))  # noqa: E731
+    return [
+        ("table-ports", ident + port() + port() + data(15)),
+        ("one-port-extended", ident + rng.choice([b"\x00" + port(), port() + b"\x00"]) + data(2) + data(11)),
+        ("both-ports-extended", ident + b"\x00\x00" + data(4) + data(9)),
+        ("both-ports-extended-short", ident + b"\x00\x00" + data(rng.randrange(0, 3))),
+        ("min-5-octets", ident + port() + port()),
+        ("4-octets", ident + port()),
+        ("long", ident + port() + port() + data(rng.randrange(40, 90))),
+    ]
+
+
+def udp_histories(rng):
+    l = L()
+    out = []
+    n = 0
+    for rate in ("r12", "r34", "r1"):
+        for confirmed in (False, True):
+            for name, payload in udp_datagrams(rng):
+                slot = 1 + n % 2
+                k = [0, 2, 1][n % 3]
+                h = [[slot] + b for b in generated_transmission(rng, rate=rate, confirmed=confirmed, k=k, sap=3, payload=payload)]
+                if n % 4 == 1:
+                    # a voice call on the other slot in between
+                    v = [[3 - slot] + b for b in [sym_voice_header(rng), sym_voice_sync(rng), sym_voice_emb(rng), sym_terminator(rng)]]
+                    h = [x for pair in zip(h, v) for x in pair] + h[len(v):] + v[len(h):]
+                # a second transmission from another radio on the same slot: would be merged into the first
+                # one if the first end did not complete
+                h += [[slot] + b for b in generated_transmission(rng, rate=rate, confirmed=confirmed, k=0, sap=[3, 4][n % 2], payload=payload[::-1])]
+                out.append((f"udp {rate} {'confirmed' if confirmed else 'unconfirmed'} {name}", h, False))
+                n += 1
+    dg = udp_datagrams(rng)[0][1]
+    info = l.bytes_to_bits(dg[:12])
+    hdr = lambda btf: sym_data_header(rng, fmt="unconfirmed", btf=btf, a=0, sap=3, cc=5)  # noqa: E731
+    blk = lambda: sym_rate(rng, rate="r12", info=info, cc=5)  # noqa: E731
+    tail = [sym_data_header(rng, fmt="unconfirmed", btf=1, a=0, sap=4, cc=5), sym_rate(rng, rate="r12", cc=5)]
+    # the end is triggered by a voice LC header (new_transmission while the data transmission is open)
+    out.append(("udp ended by a voice header", [[1] + b for b in [hdr(3), blk(), sym_voice_header(rng, kind="group"), sym_voice_sync(rng), sym_terminator(rng)] + tail], False))
+    # by the block count announced by a preamble CSBK being reached with a CSBK (end_transmissions)
+    out.append(("udp ended by the preamble count", [[2] + b for b in [sym_csbk(rng, preamble=True, btf=3, cc=5), hdr(0), blk(), sym_csbk(rng, preamble=False, cc=5)] + tail], False))
+    # by end_all_transmissions of the watcher
+    out.append(("udp ended by end_all_transmissions", [[1] + b for b in [hdr(6), blk(), blk()]], True))
+    out.append(("udp ended by end_all_transmissions, both slots", [[1] + hdr(6), [2] + hdr(4), [1] + blk(), [2] + blk()], True))
+    # a duplicated header, a repeated last block
+    g = [[1] + b for b in generated_transmission(rng, rate="r12", confirmed=False, k=1, sap=3, payload=dg)]
+    out.append(("udp duplicated header and last block", g[:2] + [g[1]] + g[2:] + [g[-1]] + g, False))
+    return out
+
+
+# ------------------------------------------------------------------------------------------------
+def build_history(job):
     kind = job["kind"]
     if kind == "random":
-        history = random_history(random.Random(job["seed"]), job["max_len"])
+        history = random_history(_random.Random(job["seed"]), job["max_len"])
     elif kind == "long":
-        history = long_voice(random.Random(job["seed"]), job["n"])
+        history = long_voice(_random.Random(job["seed"]), job["n"])
+    elif kind == "many":
+        history = many_transmissions(_random.Random(job["seed"]), job["n"])
+    elif kind == "longdata":
+        r = _random.Random(job["seed"])
+        history = [[job["slot"]] + b for b in generated_transmission(r, rate=job["rate"], confirmed=job["confirmed"], k=2, sap=3,
+                                                                   payload=bytes(r.randrange(1, 256) for _ in range(job["n"])))]
+        history += [[job["slot"]] + sym_voice_header(r), [job["slot"]] + sym_terminator(r)]
     else:
         history = job["history"]
-    lines, outs, fails = run_history(job["raises"], history, watcher=job.get("watcher", False))
-    return {"history": history, "lines": lines, "outs": outs, "fails": fails}
+    if job.get("inject") is not None:
+        history = inject_bad_calls(_random.Random(job["inject"]), history, first=True, noassert=bool(job.get("noassert")))
+    return history
+
+
+def job_run(job):
+    """one job in a worker process: build the history (if it is a seeded one) and run it on the real code"""
+    history = build_history(job)
+    info = {}
+    lines, outs, fails = run_history(job["raises"], history, watcher=job.get("watcher", False), ambient=job.get("ambient"),
+                                     flavour=job.get("flavour", 0), info=info)
+    if job.get("ambient") in REAL_ENTROPY and any(f[0] == "stream-id-not-fresh" for f in fails):
+        # real 32-bit tokens can collide (2^-32 per pair): only what a second run repeats is reported
+        _, _, again = run_history(job["raises"], history, watcher=job.get("watcher", False), ambient=job.get("ambient"),
+                                  flavour=job.get("flavour", 0))
+        repeated = {f[1] for f in again if f[0] == "stream-id-not-fresh"}
+        fails = [f for f in fails if f[0] != "stream-id-not-fresh" or f[1] in repeated]
+    tainted = any(f[0] == "TAINT" for f in fails)
+    fails = [f for f in fails if f[0] != "TAINT"]
+    return {"history": history, "lines": lines, "outs": outs, "fails": fails, "info": info, "tainted": tainted}
+
+
+def normalise_streams(outs):
+    """stream ids renamed by order of first appearance (runs with the real entropy source)"""
+    names = {}
+
+    def nm(x):
+        return "s%d" % names.setdefault(x, len(names))
+
+    res = []
+    for o in outs:
+        f = o.split(" ")
+        if " / " in o:
+            parts = o.split(" / ")
+            for i in (0, 1):
+                g = parts[i].split(" ")
+                g[7] = nm(g[7])
+                parts[i] = " ".join(g)
+            res.append(" / ".join(parts[:2]))  # the number of tokens drawn is not observable without the counter
+        elif len(f) >= 5 and f[2].isdigit():
+            f[2] = nm(f[2])
+            res.append(" ".join(f))
+        else:
+            res.append(o)
+    return res
 
 
 def workers():
-    import os
-
     try:
         w = int(os.environ.get("VERIF_WORKERS", "8"))
     except ValueError:
@@ -837,33 +1408,143 @@ def pmap(fn, jobs, nworkers):
             yield r
 
 
+# ------------------------------------------------------------------------------------------------
+# the child interpreter: `python -O` (asserts stripped), a fresh process whose FIRST calls on the tracker
+# classes are rejected ones, and a phase with the descriptors 1 and 2 really broken
+# ------------------------------------------------------------------------------------------------
+def child_main(argv):
+    """argv: <jobs.json> <result.json>.  Nothing is printed."""
+    with open(argv[0]) as f:
+        spec = json.load(f)
+    res = {"optimize": sys.flags.optimize, "first": [], "jobs": [], "broken": []}
+    lib()
+    l = L()
+    logging.disable(logging.CRITICAL)
+    # phase 0: the first calls this process makes on Terminal / Timeslot / Transmission / TransmissionWatcher fail
+    fb = spec["first_burst"]
+    term = None
+    try:
+        for kind in BAD_KINDS:
+            if kind.startswith("terminal:"):
+                res["first"].append([kind, do_bad_call(None, None, kind, 1, fb[0], fb[1])])
+        from okdmr.dmrlib.transmission.transmission_watcher import TransmissionWatcher
+
+        watch = TransmissionWatcher([])
+        res["first"].append(["watch:none", do_bad_call(None, watch, "watch:none", 1, fb[0], fb[1])])
+        term = l.Terminal(1, [])
+        for kind in BAD_KINDS:
+            if not kind.startswith(("terminal:", "watch:")):
+                res["first"].append([kind, do_bad_call(term, None, kind, 1, fb[0], fb[1])])
+        res["first_state"] = slot_state(term.timeslots[1]).split(" ")[:7] + slot_state(term.timeslots[2]).split(" ")[:7]
+    except BaseException as e:  # noqa
+        res["first_error"] = impl_error(e)
+    logging.disable(logging.NOTSET)
+    # phase 1: the jobs as the parent ran them
+    for job in spec["jobs"]:
+        try:
+            r = job_run(job)
+            res["jobs"].append({"outs": r["outs"], "fails": r["fails"], "tainted": r["tainted"]})
+        except BaseException as e:  # noqa
+            res["jobs"].append({"error": impl_error(e) + " " + str(e)[:200]})
+    # phase 2: the standard descriptors themselves are dead (the reader of both pipes has gone)
+    try:
+        sys.stdout.flush()
+        sys.stderr.flush()
+        rfd, wfd = os.pipe()
+        os.close(rfd)
+        os.dup2(wfd, 1)
+        os.dup2(wfd, 2)
+        sys.stdout = os.fdopen(1, "w", buffering=1, closefd=False)
+        sys.stderr = os.fdopen(2, "w", buffering=1, closefd=False)
+        for i in spec["broken"]:
+            job = dict(spec["jobs"][i], ambient="inherit")
+            try:
+                r = job_run(job)
+                res["broken"].append({"index": i, "outs": r["outs"], "fails": r["fails"], "tainted": r["tainted"]})
+            except BaseException as e:  # noqa
+                res["broken"].append({"index": i, "error": impl_error(e) + " " + str(e)[:200]})
+    except BaseException as e:  # noqa
+        res["broken_error"] = impl_error(e)
+    with open(argv[1], "w") as f:
+        json.dump(res, f, default=str)
+    os._exit(0)  # no flush of the dead standard streams at interpreter exit
+
+
+def child_start(spec, optimize=True):
+    """start the child interpreter on `spec`; returns (process, result path)"""
+    import subprocess
+    import tempfile
+
+    d = tempfile.mkdtemp(prefix="c08child")
+    jp, rp = os.path.join(d, "jobs.json"), os.path.join(d, "result.json")
+    with open(jp, "w") as f:
+        json.dump(spec, f)
+    here = os.path.dirname(os.path.abspath(__file__))
+    code = ("import sys; sys.path[:0] = [%r, %r]; import c08; c08.child_main(sys.argv[1:])" % (os.path.dirname(here), here))
+    cmd = [sys.executable] + (["-O"] if optimize else []) + ["-c", code, jp, rp]
+    p = subprocess.Popen(cmd, stdin=subprocess.DEVNULL, stdout=subprocess.PIPE, stderr=subprocess.PIPE)
+    return p, rp, d
+
+
+def child_finish(handle, timeout=600):
+    import shutil
+
+    p, rp, d = handle
+    try:
+        try:
+            _, err = p.communicate(timeout=timeout)
+        except Exception:  # noqa
+            p.kill()
+            _, err = p.communicate()
+        try:
+            with open(rp) as f:
+                return json.load(f), None
+        except Exception as e:  # noqa
+            return None, f"child interpreter gave no result (rc={p.returncode}): {e}: {(err or b'')[-400:]!r}"
+    finally:
+        shutil.rmtree(d, ignore_errors=True)
+
+
 def run(ctx):
     ctx.rule = (
         "corpus of the three repaired defects; every (state class, symbol class) pair on one slot and on the other slot with "
         "traffic in between; random two-slot histories assembled from generated data transmissions (complete, truncated, with lost / "
         "repeated / foreign bursts, shuffled), voice fragments (header, superframes with lost bursts and late entry, terminator) and "
-        "single random symbols, each under observers that raise / do not raise, a quarter of them through a TransmissionWatcher "
-        "that finishes with end_all_transmissions; histories with > 256 bursts without an end. "
-        "A case is one history under one observer configuration; distinct = distinct (observers, byte-exact history)."
+        "single random symbols, each under observers that raise / do not raise (seven families of exception classes, BaseException "
+        "included), a quarter of them through a TransmissionWatcher that finishes with end_all_transmissions; histories with > 256 "
+        "bursts without an end.  Error paths: calls the tracker rejects (wrong time slot / burst type / observer, corrupted copies of "
+        "the next burst) interleaved into histories, the first call being a rejected one; they must change nothing and the valid "
+        "bursts must be answered as without them.  Ambient state: a fixed sample (every way a SAP = UDP/IP-compression transmission "
+        "whose datagram does / does not decode can end, the corpus, random histories) re-run with sys.stdout / sys.stderr replaced "
+        "by writers that raise, the root logger at DEBUG, `random` reseeded between bursts with the real entropy source, a moving "
+        "clock, warnings as errors, and in a child `python -O` process whose first calls are rejected ones and whose descriptors 1 "
+        "and 2 are finally broken; every answer must equal the one of the ordinary run. "
+        "A case is one history under one observer configuration and one ambient condition; distinct = distinct of those."
     )
     ctx.trusted_base += [
         "Lean 4.33 kernel",
         "tools/extract_tracker.py (enum values, resolve() graphs, accepted lengths and the bit layout of every typed rate-x parse, read by calling the library)",
         "hand-written model of Transmission / Timeslot / Terminal / WithObservers (Model/Tracker.lean) tied to the code by this run's correspondence",
         "the abstraction `alpha` of a parsed Burst to the model's input symbol (harness/props/c08.py) — it reads only attributes of the library's own parse",
-        "secrets.token_bytes is an entropy oracle: modelled as a counter and monkey-patched to one in the harness (freshness of real ids is probabilistic, 2^-32 per pair)",
+        "secrets.token_bytes is an entropy oracle: modelled as a counter and monkey-patched to one in the harness (freshness of real ids is probabilistic, 2^-32 per pair; "
+        "the runs with the real source report a repeated id only if a second run repeats it)",
         "Burst parsing itself (C01) and the PDU codecs (C03) are not part of this property: bursts that do not parse are outside its domain",
     ]
     ctx.assumptions += [
         "every burst object is freshly parsed (the tracker mutates the burst it is given)",
         "time slot numbers are 1 or 2",
+        "ambient: Python's own logging machinery is trusted to swallow what its handlers raise; it does so for OSError from sys.stderr only "
+        "(Handler.handleError), so a sys.stderr that raises ValueError (closed file) is exercised with logging.raiseExceptions = False, "
+        "the documented production setting; handlers / filters that raise by themselves are application errors outside the property",
+        "single-threaded use (the property does not mention concurrency)",
     ]
     lib()  # import the library before any worker is forked
     rng = ctx.rng
     configs = [[True, False], [False, True], [True, True], [False, False]]
     jobs = []
     # ---- corpus: every history under all four observer configurations (group = same answers expected)
-    for g, (desc, h) in enumerate(corpus(rng)):
+    corp = corpus(rng)
+    for g, (desc, h) in enumerate(corp):
         for raises in configs:
             jobs.append({"kind": "explicit", "desc": desc, "raises": raises, "history": h, "group": ("corpus", g), "sample": raises == configs[0]})
     # ---- all (state class, symbol class) pairs
@@ -871,6 +1552,7 @@ def run(ctx):
     prefixes = state_prefixes(rng)
     other = [[2] + sym_voice_header(rng), [2] + sym_csbk(rng, preamble=True, btf=3)]
     n = 0
+    pair_jobs = []
     for pname, pre in prefixes:
         for vname, sym in variants:
             for slot_mode in range(2):
@@ -884,35 +1566,122 @@ def run(ctx):
                         h.append([1] + other[i % 2][1:])
                     h += [[2] + sym, [1] + other[0][1:], [2] + sym_voice_emb(rng)]
                 jobs.append({"kind": "explicit", "desc": f"pair {pname} x {vname}", "raises": configs[n % 4], "history": h,
-                             "watcher": n % 5 == 4, "count": "pair", "sample": (pname, vname, slot_mode) == ("voice:label2", "ve", 0)})
+                             "watcher": n % 5 == 4, "flavour": (n // 4) % len(FLAVOURS), "count": "pair",
+                             "sample": (pname, vname, slot_mode) == ("voice:label2", "ve", 0)})
+                pair_jobs.append(jobs[-1])
+                if n % 9 == 0:
+                    # the same with rejected calls in between, the first call on the new terminal being one
+                    jobs[-1]["group"] = ("pair", n)
+                    jobs.append(dict(jobs[-1], inject=rng.getrandbits(48), count="pair+rejected", sample=False))
                 n += 1
     # ---- sequence wrap
     for raises in configs[:2]:
         jobs.append({"kind": "long", "desc": "sequence wrap", "raises": raises, "seed": rng.getrandbits(64), "n": ctx.budget(300, 700)})
+    # ---- many notifications per observer; transmissions of about a hundred blocks
+    for k, raises in enumerate(configs[:3]):
+        jobs.append({"kind": "many", "desc": "many short transmissions", "raises": raises, "seed": rng.getrandbits(64), "n": ctx.budget(160, 3000),
+                     "flavour": k, "count": "many-transmissions"})
+    for k, (rate, n) in enumerate([("r12", 1150), ("r34", 1500), ("r1", 2000)][: 3 if ctx.thorough() else 1]):
+        for confirmed in (False, True):
+            jobs.append({"kind": "longdata", "desc": "data transmission of about a hundred blocks", "raises": configs[k % 4], "seed": rng.getrandbits(64),
+                         "rate": rate, "confirmed": confirmed, "n": n, "slot": 1 + k % 2, "watcher": confirmed, "count": "long-data-transmission"})
+    # ---- other numbers of observers (none, one, three, seven; an observer registered twice is kept once)
+    for k, raises in enumerate([[], [True], [False], [True, False, True], [False, True, True, False, True, False, True]]):
+        for g, (desc, h) in enumerate(corp[:5]):
+            jobs.append({"kind": "explicit", "desc": desc, "raises": raises, "history": h, "flavour": k + g, "count": f"observers:{len(raises)}"})
+        for g in range(6):
+            jobs.append({"kind": "random", "desc": "random", "raises": raises, "seed": rng.getrandbits(64), "max_len": 25, "watcher": g % 3 == 2,
+                         "flavour": k + g, "count": f"observers:{len(raises)}"})
     # ---- random histories (built in the workers from their seeds)
     max_len = 400 if ctx.thorough() else 25
     for i in range(ctx.budget(1200, 6000)):
         seed = rng.getrandbits(64)
         ml = max_len if i % 4 else max(5, max_len // 8)
         jobs.append({"kind": "random", "desc": "random", "raises": configs[i % 4], "seed": seed, "max_len": ml, "watcher": i % 4 == 3,
-                     "count": "random", "sample": i == 0})
+                     "flavour": (i // 4) % len(FLAVOURS), "count": "random", "sample": i == 0})
         if i % 10 == 0:
             # the same history under another observer configuration must answer the same
             jobs[-1]["group"] = ("random", i)
             jobs.append({"kind": "random", "desc": "random", "raises": configs[(i + 1) % 4], "seed": seed, "max_len": ml,
-                         "watcher": i % 4 == 3, "group": ("random", i)})
+                         "watcher": i % 4 == 3, "flavour": (i // 4 + 3) % len(FLAVOURS), "group": ("random", i)})
+        if i % 6 == 1:
+            # the same history with rejected calls interleaved
+            jobs[-1]["group"] = ("random", i)
+            jobs.append(dict(jobs[-1], inject=rng.getrandbits(48), count="random+rejected", sample=False))
+    # ---- ambient sample (fixed size: it does not grow with the budget)
+    udp = udp_histories(rng)
+    ambient_set = [(d, h, w) for d, h, w in udp] + [(d, h, False) for d, h in corp]
+    amb_jobs = []  # reference jobs of the ambient sample, explicit histories (also given to the child interpreter)
+    for k, (desc, h, w) in enumerate(ambient_set):
+        ref = {"kind": "explicit", "desc": desc, "raises": configs[k % 4], "history": h, "watcher": w, "flavour": k % len(FLAVOURS),
+               "group": ("ambient", k), "count": "ambient-reference", "sample": k == 0}
+        jobs.append(ref)
+        amb_jobs.append(ref)
+        for a in AMBIENTS:
+            jobs.append(dict(ref, ambient=a, count=None, sample=(k == 0 and a == "stdout:epipe")))
+        jobs.append(dict(ref, inject=rng.getrandbits(48), count="ambient+rejected", sample=False))
+        jobs.append(dict(ref, inject=rng.getrandbits(48), ambient=AMBIENTS[k % len(AMBIENTS)], count=None, sample=False))
+    for k in range(24):
+        ref = {"kind": "random", "desc": "random (ambient sample)", "raises": configs[k % 4], "seed": rng.getrandbits(64), "max_len": 25,
+               "watcher": k % 3 == 2, "flavour": k % len(FLAVOURS), "group": ("ambient-random", k), "count": "ambient-reference"}
+        jobs.append(ref)
+        for j in range(4):
+            jobs.append(dict(ref, ambient=AMBIENTS[(4 * k + j) % len(AMBIENTS)], count=None))
+    # ---- the child interpreter (python -O) runs while the pool works
+    child_jobs = []
+    for j in amb_jobs:
+        child_jobs.append(dict(j))
+        child_jobs.append(dict(j, inject=rng.getrandbits(48), noassert=True))
+    n_broken = len(child_jobs)
+    for j in pair_jobs[:: max(1, len(pair_jobs) // 300)]:
+        child_jobs.append(dict(j))
+    for k in range(30):
+        child_jobs.append({"kind": "random", "desc": "random (child)", "raises": configs[k % 4], "seed": rng.getrandbits(64), "max_len": 25,
+                           "watcher": k % 3 == 2, "flavour": k % len(FLAVOURS), "inject": rng.getrandbits(48) if k % 2 else None,
+                           "noassert": True})
+    for j in child_jobs:
+        for key in ("group", "count", "sample"):
+            j.pop(key, None)
+        j["child"] = True
+    spec = {"first_burst": sym_csbk(_random.Random(7), preamble=False), "jobs": child_jobs, "broken": list(range(0, n_broken, 2))}
+    child = child_start(spec)
+    n_main = len(jobs)
+    jobs += child_jobs  # the parent's answers to the same jobs
+
     pairs = []
     groups = {}
-    for job, res in zip(jobs, pmap(job_run, jobs, workers())):
-        history, lines, outs, fails = res["history"], res["lines"], res["outs"], res["fails"]
-        desc, raises = job["desc"], job["raises"]
-        ctx.case((desc, tuple(raises), bool(job.get("watcher")), tuple(tuple(x) for x in history)), nontrivial=len(history) > 0,
-                 sample={"case": desc, "raises": raises, "watcher": bool(job.get("watcher")), "history_len": len(history),
+    child_ref = []
+    for idx, (job, res) in enumerate(zip(jobs, pmap(job_run, jobs, workers()))):
+        history, lines, outs, fails, info = res["history"], res["lines"], res["outs"], res["fails"], res["info"]
+        desc, raises, amb = job["desc"], job["raises"], job.get("ambient")
+        inp = {"raises": list(raises), "watcher": bool(job.get("watcher")), "history": history}
+        if job.get("flavour"):
+            inp["flavour"] = job["flavour"]
+        if amb:
+            inp["ambient"] = amb
+        if idx >= n_main:
+            child_ref.append((job, res, inp))
+        ctx.case((desc, tuple(raises), bool(job.get("watcher")), job.get("flavour", 0), amb, tuple(tuple(x) for x in history)), nontrivial=len(history) > 0,
+                 sample={"case": desc, "raises": raises, "watcher": bool(job.get("watcher")), "ambient": amb, "history_len": len(history),
                          "first_lines": lines[1:4], "first_outputs": outs[1:4]} if job.get("sample") else None)
         ctx.count("bursts", len(history))
         ctx.count("via-watcher" if job.get("watcher") else "via-terminal")
+        ctx.count(f"observer-exceptions:family{job.get('flavour', 0) % len(FLAVOURS)}")
         if job.get("count"):
             ctx.count(job["count"])
+        if amb:
+            ctx.count("ambient:" + amb)
+            if amb.startswith(("stdout:", "both:", "log:root-debug-stdout")) and info.get("write_attempts"):
+                ctx.count("ambient:failing-stream-was-written-to")
+        if info.get("printed"):
+            ctx.count("udp-diagnostic-print-reached", info["printed"])
+        for kind, answer, first in info.get("bad", []):
+            ctx.count("rejected-call:" + kind)
+            ctx.count("rejected-call-answer:" + answer)
+            if first:
+                ctx.count("rejected-call:first-call-on-the-terminal")
+        if res["tainted"]:
+            ctx.count("rejected-call:corrupted-burst-accepted(run-dropped)")
         if job["kind"] == "random":
             ctx.count(f"history-len:{min(len(history) // 50 * 50, 400)}+")
         for o in outs[1:-1]:
@@ -923,16 +1692,63 @@ def run(ctx):
             for e in ev.split(";"):
                 ctx.count("event:" + (e.split(":")[0] + ":" + e.split(":")[1][:1] if e != "-" else "-"))
         for kind, what, exp, act in fails:
-            ctx.fail(kind, {"raises": list(raises), "watcher": bool(job.get("watcher")), "history": history}, f"{what} [{desc}]", expected=exp, actual=act)
-        if "group" in job:
-            ref = groups.setdefault(job["group"], outs)
-            if ref is not outs and ref[1:] != outs[1:]:
-                ctx.fail("observer-isolation", {"raises": list(raises), "watcher": bool(job.get("watcher")), "history": history},
-                         f"results depend on which observers raise [{desc}]", expected=ref[1:4], actual=outs[1:4])
-        pairs += list(zip(lines, outs))
+            ctx.fail(kind, inp, f"{what} [{desc}{' under ' + amb if amb else ''}]", expected=exp, actual=act)
+        if "group" in job and not res["tainted"]:
+            gk = job["group"]
+            ref = groups.setdefault(gk, (outs, job))
+            if ref[0] is not outs:
+                a, b = ref[0][1:], outs[1:]
+                if amb in REAL_ENTROPY:
+                    a, b = normalise_streams(a), normalise_streams(b)
+                if a != b:
+                    d = next((i for i, (x, y) in enumerate(zip(a, b)) if x != y), min(len(a), len(b)))
+                    if amb:
+                        kind, what = "ambient-dependence", f"answers differ from the ordinary run under the ambient condition {amb}"
+                    elif job.get("inject") is not None:
+                        kind, what = "error-path-state", "valid bursts are answered differently when rejected calls are made in between"
+                    else:
+                        kind, what = "observer-isolation", "results depend on which observers raise (or on what they raise)"
+                    ctx.fail(kind, inp, f"{what} [{desc}] (first difference at answer {d})", expected=a[max(0, d - 1):d + 2], actual=b[max(0, d - 1):d + 2])
+        if amb not in REAL_ENTROPY and not res["tainted"]:
+            pairs += list(zip(lines, outs))
+            for ln, got in info.get("diag_pairs", []):
+                pairs.append((ln, got))
+                ctx.count("udp-diagnostic:" + got)
         if len(pairs) > 40000:
             flush(ctx, pairs)
     flush(ctx, pairs)
+    # ---- what the child interpreter answered
+    cres, cerr = child_finish(child)
+    if cres is None:
+        ctx.notes.append("child interpreter: " + str(cerr))
+        ctx.fail("child-interpreter", {"interpreter": "python -O"}, "the tracker could not be run in a child `python -O` process: " + str(cerr))
+        return
+    ctx.count("child:python -O optimize=%s" % cres.get("optimize"))
+    if cres.get("first_error") or any(x not in ("I", "0", "U", "-") for x in cres.get("first_state", [])):
+        ctx.fail("error-path-state", {"interpreter": "python -O", "first_calls": cres.get("first")},
+                 "rejected calls as the first calls of a process leave state behind", expected="idle", actual=[cres.get("first_error"), cres.get("first_state")])
+    ctx.count("child:first-calls-rejected", len(cres.get("first", [])))
+    for phase, items in (("python -O", list(enumerate(cres.get("jobs", [])))), ("python -O, descriptors 1 and 2 broken", [(x["index"], x) for x in cres.get("broken", [])])):
+        for i, c in items:
+            job, res, inp = child_ref[i]
+            inp = dict(inp, interpreter=phase)
+            ctx.case(("child", phase, i), nontrivial=True)
+            ctx.count("child:" + phase)
+            if "error" in c:
+                ctx.fail("child-interpreter", inp, f"the harness failed in the child interpreter: {c['error']} [{job['desc']}]")
+                continue
+            if c.get("tainted") or res["tainted"]:
+                ctx.count("child:run-dropped")
+                continue
+            for kind, what, exp, act in c["fails"]:
+                ctx.fail(kind, inp, f"{what} [{job['desc']} in {phase}]", expected=exp, actual=act)
+            if c["outs"] != res["outs"] and not c["fails"]:
+                a, b = res["outs"], c["outs"]
+                d = next((k for k, (x, y) in enumerate(zip(a, b)) if x != y), min(len(a), len(b)))
+                ctx.fail("ambient-dependence", inp, f"answers in {phase} differ from the ordinary run [{job['desc']}] (first difference at answer {d})",
+                         expected=a[max(0, d - 1):d + 2], actual=b[max(0, d - 1):d + 2])
+    if cres.get("broken_error"):
+        ctx.notes.append("child interpreter: descriptors could not be broken: " + str(cres["broken_error"]))
 
 
 def flush(ctx, pairs):
@@ -948,7 +1764,32 @@ def replay(obj):
     if "history" not in inp:
         print(json.dumps(obj, indent=1)[:4000])
         return 1
-    lines, outs, fails = run_history(inp.get("raises", [True, False]), inp["history"], watcher=bool(inp.get("watcher")))
+    job = {"kind": "explicit", "history": inp["history"], "raises": inp.get("raises", [True, False]), "watcher": bool(inp.get("watcher")),
+           "flavour": inp.get("flavour", 0), "ambient": inp.get("ambient")}
+    if inp.get("interpreter"):
+        lib()
+        broken = "broken" in inp["interpreter"]
+        cres, cerr = child_finish(child_start({"first_burst": sym_csbk(_random.Random(7), preamble=False), "jobs": [job], "broken": [0] if broken else []}))
+        if cres is None:
+            print(cerr)
+            return 1
+        c = (cres["broken"] if broken else cres["jobs"])[0]
+        print(f"in a child interpreter ({inp['interpreter']}):", json.dumps(c)[:3000])
+        ref = job_run(job)
+        print("ordinary run:", json.dumps(ref["outs"])[:3000])
+        return 1 if (c.get("fails") or c.get("error") or c.get("outs") != ref["outs"]) else 0
+    res = job_run(job)
+    lines, outs, fails = res["lines"], res["outs"], res["fails"]
+    refouts = None
+    if job["ambient"] or any(el[0] == "bad" for el in job["history"]):
+        plain = dict(job, ambient=None, history=[el for el in job["history"] if el[0] != "bad"])
+        refouts = job_run(plain)["outs"]
+        if job["ambient"] in REAL_ENTROPY:
+            differs = normalise_streams(refouts[1:]) != normalise_streams(outs[1:])
+        else:
+            differs = refouts != outs
+        if differs and not res["tainted"]:
+            fails = fails + [("differs-from-ordinary-run", "the answers differ from the run without the ambient condition / rejected calls", refouts[:6], outs[:6])]
     model = None
     try:
         import common
